@@ -80,6 +80,41 @@ def case(cfg, trims):
             bad.append(("run-raises", f"re-opening a finished run raised {type(e).__name__}: {e}"))
         finally:
             shutil.rmtree(tmp, ignore_errors=True)
+    # a run continued from a mid-run checkpoint by a sampler with ANOTHER particle count: the stored history then holds batches
+    # of different sizes, and everything computed from it must use the sizes it actually has
+    if c.get("ragged"):
+        import os, shutil
+        from tvf.checks.c08 import tmpdir
+        tmp = tmpdir()
+        try:
+            c2 = dict(c, output_dir=tmp, output_label="rg")
+            np.random.seed(c["seed"])
+            sA = runs.build(c2)[0]
+            sA.run(n_total=c["n_total"], progress=False, save_every=2)
+            files = sorted((f for f in os.listdir(tmp) if f.startswith("rg_") and "final" not in f), key=lambda f: int(f.split("_")[1].split(".")[0]))
+            if files:
+                N2 = c["N"] * 4 if c["seed"] % 2 else max(8, c["N"] // 4)
+                sB = runs.build(dict(c2, N=N2))[0]
+                sB.run(n_total=c["n_total"], progress=False, resume_state_path=os.path.join(tmp, files[len(files) // 2]))
+                HB = runs.history(sB)
+                sizes = sorted(set(len(l) for l in HB["logl"]))
+                _, lwnB, lzB, essB = mis_ref(HB["logl"], HB["beta"], HB["logz"], 1.0)
+                evB = float(sB.evidence()[0])
+                out["ragged"] = int(len(sizes) > 1)
+                if abs(evB - float(lzB)) > 1e-8 * (1 + abs(float(lzB))):
+                    bad.append(("post-evidence", f"history with batch sizes {sizes} (run continued with n_particles={N2} instead of {c['N']}): evidence()={evB!r} but the MIS "
+                                f"evidence recomputed from the stored history is {float(lzB)!r}"))
+                if float(essB) < c["n_total"] * (1 - 1e-9) or abs(1 - float(sB.state.get_current("beta"))) >= 1e-4:
+                    bad.append(("post-ess", f"history with batch sizes {sizes}: run ended at beta={float(sB.state.get_current('beta'))} with reference ESS {float(essB):.2f} < n_total={c['n_total']}"))
+                xB, wB, lB = sB.posterior(trim_importance_weights=False)
+                wr = np.exp(np.asarray(lwnB, dtype=np.longdouble)).astype(float)
+                wr /= wr.sum()
+                if len(wB) != len(wr) or not np.allclose(wB, wr, rtol=1e-7, atol=1e-300):
+                    bad.append(("posterior-weights-misaligned", f"history with batch sizes {sizes}: posterior() weights are not the normalised MIS weights of the stored rows"))
+        except Exception as e:
+            bad.append(("run-raises", f"continuing a run with another particle count raised {type(e).__name__}: {e}"))
+        finally:
+            shutil.rmtree(tmp, ignore_errors=True)
     # a second run() on the same object (the library keeps the stored history and tops it up; whether that is a fresh start is
     # not stated anywhere, so only the postconditions of run() are judged)
     if c.get("rerun"):
@@ -242,7 +277,7 @@ def run():
     trims = TRIMS[:5] if ck.quick else TRIMS
     ck.tables["pairwise_coverage"] = cover.coverage(rows, FACTORS, 2)
     ck.tables["threeway_coverage"] = cover.coverage(rows, FACTORS, 3)
-    tasks = [("tvf.checks.c12:case", dict(cfg=dict(to_cfg(r, ck.subseed("cfg", i)), reopen=(i % 2 == 0), rerun=(i % 3 == 1)), trims=trims), None) for i, r in enumerate(rows)]
+    tasks = [("tvf.checks.c12:case", dict(cfg=dict(to_cfg(r, ck.subseed("cfg", i)), reopen=(i % 2 == 0), rerun=(i % 3 == 1), ragged=(i % 3 == 2)), trims=trims), None) for i, r in enumerate(rows)]
     for i, st, val in farm.run(tasks, timeout=900, progress="C12"):
         cfg = tasks[i][1]["cfg"]
         if st == "timeout":
@@ -256,6 +291,7 @@ def run():
         ck.event("posterior() option combinations called", val["combos"])
         ck.event("finished runs re-opened from their final checkpoint", val.get("reopened", 0))
         ck.event("second run() on the same sampler object judged", val.get("rerun", 0))
+        ck.event("runs continued with another particle count (stored batches of different sizes)", val.get("ragged", 0))
         ck.event("posterior rows identified through the evaluation log", val["rows"])
         seen = set()
         for key, what in val["bad"]:
